@@ -1,7 +1,7 @@
-//! C03 driver (stub: not built yet).
+//! C03 driver: calls of `yamaquasi::factor` on the input space of spec/factor/FactorShapes.tla
+//! (see factor_common.rs for the machinery shared by C01 / C02 / C03).
 use crate::trace::Args;
 
-pub fn run(_args: &Args) -> i32 {
-    eprintln!("driver c03 not built yet");
-    2
+pub fn run(args: &Args) -> i32 {
+    super::factor_common::run_prop(args, "C03")
 }
